@@ -12,7 +12,9 @@ Mirrors `taskfile/reader.go` `(*Reader).include`:
   node (`NewNode`: 105 for plain http without `--insecure`) and recurses with the SAME `ctx`;
   `g.Wait()` waits for ALL of them — a failing sibling does not stop the others, whose cache writes
   therefore happen whether or not the load as a whole fails — and returns the error of the sibling that
-  failed first *in real time*: which one is the environment's choice (`TStep.pick`);
+  failed first *in real time*: which one is the environment's choice (`TStep.pick`; since fix 83913b5 of
+  the load domain `Reader.Read` reports the first error of a depth-first walk in declaration order —
+  the model accepts any failing node's code, so it holds for both rules);
 * prompts of concurrently read siblings are serialised by `promptMutex`; each prompt names its URL and
   is answered on its own (`world u`);
 * an include that points back at one of its ancestors is the cycle error 110.
